@@ -51,7 +51,7 @@ fn best_instance(sense: i32, removed_how: u8) -> Result<v1::Instance, String> {
         let mut m = InstRep {
             sense,
             objective: Some(FnRep::Lin { terms: vec![(1, 1.0)], c: 0.0 }),
-            vars: vec![VarRep::new(1, KIND_CONTINUOUS, None), VarRep::new(2, KIND_CONTINUOUS, None), VarRep::new(3, KIND_CONTINUOUS, None)],
+            vars: vec![VarRep::new(3, KIND_CONTINUOUS, None), VarRep::new(1, KIND_CONTINUOUS, None), VarRep::new(2, KIND_CONTINUOUS, None)],
             constraints: vec![ConRep::new(0, LE_ZERO, Some(FnRep::Lin { terms: vec![(2, 1.0)], c: 0.0 })), relaxed],
             ..Default::default()
         }
@@ -64,7 +64,7 @@ fn best_instance(sense: i32, removed_how: u8) -> Result<v1::Instance, String> {
     Ok(InstRep {
         sense,
         objective: Some(FnRep::Lin { terms: vec![(1, 1.0)], c: 0.0 }),
-        vars: vec![VarRep::new(1, KIND_CONTINUOUS, None), VarRep::new(2, KIND_CONTINUOUS, None), VarRep::new(3, KIND_CONTINUOUS, None)],
+        vars: vec![VarRep::new(3, KIND_CONTINUOUS, None), VarRep::new(1, KIND_CONTINUOUS, None), VarRep::new(2, KIND_CONTINUOUS, None)],
         constraints: vec![ConRep::new(0, LE_ZERO, Some(FnRep::Lin { terms: vec![(2, 1.0)], c: 0.0 }))],
         removed: vec![RemRep { constraint: relaxed, reason: if removed_how == 0 { "relaxed".into() } else { String::new() }, parameters: vec![] }],
         ..Default::default()
